@@ -81,6 +81,132 @@ func genNondet(w *world) {
 		}
 	}
 	fmt.Fprintf(&b, "def assignerReceiver : String := %s\n\n", leanStr(recv))
+	// package-level variables that some function WRITES (assignment, element / field assignment, append,
+	// ++/--, address taken): in-memory state that survives from one block or query to the next and is
+	// lost at a restart. Error sentinels, codecs and tables that are only read are not listed.
+	type gvar struct {
+		name, typ string
+		writers   []string
+	}
+	var gvars []gvar
+	pkgVars := map[*types.Var]bool{}
+	for _, p := range w.pkgs {
+		if offPathPkg(p.PkgPath) {
+			continue
+		}
+		sc := p.Types.Scope()
+		for _, n := range sc.Names() {
+			if v, ok := sc.Lookup(n).(*types.Var); ok {
+				pkgVars[v] = true
+			}
+		}
+	}
+	writers := map[*types.Var]map[string]bool{}
+	note := func(info *types.Info, e ast.Expr, fn string) {
+		for {
+			switch x := e.(type) {
+			case *ast.IndexExpr:
+				e = x.X
+				continue
+			case *ast.SelectorExpr:
+				if id, ok := x.X.(*ast.Ident); ok {
+					if _, isPkg := info.Uses[id].(*types.PkgName); isPkg {
+						e = x.Sel
+						continue
+					}
+				}
+				e = x.X
+				continue
+			case *ast.StarExpr:
+				e = x.X
+				continue
+			case *ast.ParenExpr:
+				e = x.X
+				continue
+			}
+			break
+		}
+		if id, ok := e.(*ast.Ident); ok {
+			if v, ok := info.Uses[id].(*types.Var); ok && pkgVars[v] {
+				if writers[v] == nil {
+					writers[v] = map[string]bool{}
+				}
+				writers[v][fn] = true
+			}
+		}
+	}
+	for _, fi := range w.funcs {
+		if offPath(fi) || fi.obj.Name() == "init" {
+			continue
+		}
+		info := fi.pkg.TypesInfo
+		fkey := funcKey(fi.obj)
+		ast.Inspect(fi.decl.Body, func(n ast.Node) bool {
+			switch s := n.(type) {
+			case *ast.AssignStmt:
+				if s.Tok.String() != ":=" {
+					for _, l := range s.Lhs {
+						note(info, l, fkey)
+					}
+				}
+			case *ast.IncDecStmt:
+				note(info, s.X, fkey)
+			case *ast.UnaryExpr:
+				if s.Op.String() == "&" {
+					note(info, s.X, fkey)
+				}
+			}
+			return true
+		})
+	}
+	for v, ws := range writers {
+		if strings.HasSuffix(v.Name(), "_serviceDesc") {
+			continue // generated gRPC descriptors, handed to the router by address at wiring time
+		}
+		var l []string
+		for f := range ws {
+			l = append(l, f)
+		}
+		sort.Strings(l)
+		gvars = append(gvars, gvar{strings.TrimPrefix(strings.TrimPrefix(v.Pkg().Path(), modPath), "/") + "." + v.Name(), v.Type().String(), l})
+	}
+	sort.Slice(gvars, func(i, j int) bool { return gvars[i].name < gvars[j].name })
+	b.WriteString("structure GlobalVar where\n  name : String\n  type : String\n  writers : List String\nderiving Repr\n\n")
+	b.WriteString("/-- package-level variables written by some function other than `init` (process-local state) -/\n")
+	b.WriteString("def writtenGlobals : List GlobalVar := [\n")
+	for i, g := range gvars {
+		fmt.Fprintf(&b, "  { name := %s, type := %s, writers := %s }", leanStr(g.name), leanStr(g.typ), leanStrList(g.writers))
+		if i < len(gvars)-1 {
+			b.WriteString(",")
+		}
+		b.WriteString("\n")
+	}
+	b.WriteString("]\n\n")
+	// who changes the subscriber tables of the process-wide event bus
+	var subs []string
+	for _, fi := range w.funcs {
+		if offPath(fi) {
+			continue
+		}
+		info := fi.pkg.TypesInfo
+		ast.Inspect(fi.decl.Body, func(n ast.Node) bool {
+			ce, ok := n.(*ast.CallExpr)
+			if !ok {
+				return true
+			}
+			sel, ok := ce.Fun.(*ast.SelectorExpr)
+			if !ok || (sel.Sel.Name != "Subscribe" && sel.Sel.Name != "Unsubscribe") {
+				return true
+			}
+			if tv, ok := info.Types[sel.X]; ok && strings.Contains(tv.Type.String(), "/util/eventbus.Event[") {
+				subs = append(subs, funcKey(fi.obj)+"#"+sel.Sel.Name)
+			}
+			return true
+		})
+	}
+	sort.Strings(subs)
+	b.WriteString("/-- functions that change the subscriber table of a process-wide event-bus event -/\n")
+	b.WriteString("def eventBusSubscriptions : List String := " + leanStrList(subs) + "\n\n")
 	// what a function can still do differently AFTER it has looked at the environment: error returns
 	// (a different transaction result) and keeper calls (state access)
 	b.WriteString("structure EnvRegion where\n  fn : String\n  errorReturns : List String\n  keeperCalls : List String\nderiving Repr\n\n")
